@@ -234,6 +234,8 @@ def resolve(dotted, eng):
     from . import nparr
     if dotted in nparr.CONST:
         return nparr.CONST[dotted]
+    if dotted == 'object' or dotted.endswith('.object'):
+        return 'object'
     if dotted in nparr.TABLE and dotted not in EXTRA:
         eng.trusted_used.add(dotted)
         return Builtin(dotted, nparr.TABLE[dotted])
